@@ -2869,7 +2869,9 @@ def broadcast_to(x, /, shape):
     array([[[0, 1],
             [2, 0]]])
     """
-    return x.broadcast_to(shape)
+    from ._coo.common import _validate_coo_input
+
+    return _validate_coo_input(x).broadcast_to(shape)
 
 
 def broadcast_arrays(*arrays):
@@ -3070,7 +3072,9 @@ def nonzero(x, /):
     >>> o
     (array([0, 1]), array([1, 0]))
     """
-    return x.nonzero()
+    from ._coo.common import _validate_coo_input
+
+    return _validate_coo_input(x).nonzero()
 
 
 def imag(x, /):
